@@ -216,6 +216,20 @@ def handle (op : String) (args : List String) : Option String :=
            | .ok none => "none"
            | .error e => "err:" ++ e.family)
       | none => badArgs
+  -- the codec observed through the interpreter's arithmetic: operands decoded (at most 4 bytes each),
+  -- the result encoded and left on the stack
+  | "c08.numeval", [what, ahex, bhex] => some <| match parseHex? ahex, parseHex? bhex with
+      | some a, some b =>
+          let enc (z : Int) : String := toHex (Spec.Script.numEncode z)
+          let da := Spec.Script.numDecode a
+          let db := Spec.Script.numDecode b
+          if what = "1add" then (if a.length > 4 then "err:validation" else enc (da + 1))
+          else if what = "negate" then (if a.length > 4 then "err:validation" else enc (-da))
+          else if what = "0notequal" then (if a.length > 4 then "err:validation" else enc (if da ≠ 0 then 1 else 0))
+          else if what = "add" then (if a.length > 4 ∨ b.length > 4 then "err:validation" else enc (da + db))
+          else if what = "sub" then (if a.length > 4 ∨ b.length > 4 then "err:validation" else enc (da - db))
+          else badArgs
+      | _, _ => badArgs
   | "c08.minimal", [hex] => some <| match parseHex? hex with
       | some b => bit (decide (Spec.Script.minimal b))
       | none => badArgs
